@@ -617,7 +617,8 @@ def c05_taproot(tier='quick', seed=0):
         for src in scripts + handle0:
             sc = tools.Script.from_src(src)
             n += 1
-            lock = tools.make_taproot_lock(pk, sc)
+            fl = rnd.choice(('00', '00', '01', '03', '80'))          # permitted sigflags of the lock
+            lock = tools.make_taproot_lock(pk, sc, sigflags=fl)
             # (1) root identity, independent arithmetic
             t = bytearray(hashlib.sha256(pk + hashlib.sha256(sc.bytes).digest()).digest())
             t[31] &= 0x7f                                   # clamp_scalar(..., from_private_key=False)
@@ -627,8 +628,9 @@ def c05_taproot(tier='quick', seed=0):
                 bad = {'what': 'root identity', 'pubkey': pk.hex(), 'script': src, 'lock_root': lock.bytes[2:34].hex(),
                        'recomputed': root.hex()}
             sf = {'sigfield1': rnd.randbytes(8), 'sigfield2': rnd.randbytes(3)}
-            nn = tools.make_nonnative_taproot_lock(pk, sc)
-            wk = tools.make_taproot_witness_keyspend(seed_, sf, sc)
+            nn = tools.make_nonnative_taproot_lock(pk, sc, sigflags=fl)
+            wk = tools.make_taproot_witness_keyspend(seed_, sf, sc, sigflags=fl)
+            wk0 = tools.make_taproot_witness_keyspend(seed_, sf, sc)
             ws = tools.make_taproot_witness_scriptspend(pk, sc)
             junk = tools.Script.from_src('push x' + rnd.randbytes(64).hex())
             wrong = tools.make_taproot_witness_scriptspend(pk, tools.Script.from_src(src + ' true'))
@@ -636,12 +638,13 @@ def c05_taproot(tier='quick', seed=0):
             if F.run_auth_scripts([wk.bytes, lock.bytes], dict(sf)) is not True and bad is None:
                 bad = {'what': 'key-spend witness rejected', 'pubkey': pk.hex(), 'script': src}
             # (3) native vs non-native, every witness
-            for wname, w in (('keyspend', wk), ('scriptspend', ws), ('junk-signature', junk), ('wrong-script', wrong)):
+            for wname, w in (('keyspend', wk), ('keyspend-unflagged', wk0), ('scriptspend', ws), ('junk-signature', junk),
+                             ('wrong-script', wrong)):
                 a = F.run_auth_scripts([w.bytes, lock.bytes], dict(sf))
                 b = F.run_auth_scripts([w.bytes, nn.bytes], dict(sf))
                 if a is not b:
                     rec = {'what': 'native and non-native lock disagree', 'script': src, 'witness': wname,
-                           'native': a, 'nonnative': b}
+                           'lock_sigflags': fl, 'native': a, 'nonnative': b}
                     if src in handle0:
                         bad_h0 = bad_h0 or rec
                     elif bad is None:
